@@ -64,6 +64,10 @@ structure Field where
   /-- number of validators in the field's `and_` chain (0 = `validator=None`) -/
   validators : Nat
   onSet : FieldOn
+  /-- `init=` -/
+  init : Bool := true
+  /-- the field has a default value (`dflt.<tag>`); only generated together with `init=False` -/
+  dflt : Bool := false
   deriving DecidableEq, Repr, FromJson, ToJson, Inhabited
 
 inductive Kind where
@@ -311,7 +315,8 @@ def defineChain (cs : List Cls) : Except (Nat × Exc) CState := defineFrom .root
 /-! ## Callbacks and the built-in setters -/
 
 def Field.toInit (f : Field) : Init.Attr :=
-  { name := f.tag, alias := f.name, dflt := .none, init := true, kwOnly := false, conv := f.conv,
+  { name := f.tag, alias := f.name, dflt := if f.dflt then .value else .none, init := f.init, kwOnly := false,
+    conv := f.conv,
     validators := f.validators, onSet := .unset, isSlot := false, type := none, convType := none }
 
 /-- identities ≥ 900 are hooks that return `None` -/
@@ -444,7 +449,7 @@ structure StepObs where
   trace : List Event
   /-- every probed name after the step: value, or unset -/
   values : List (String × Option Val)
-  /-- after a successful assignment to a field `f`: the value of `f` on a fresh instance *constructed* with
+  /-- after a successful assignment to an `init=True` field `f`: the value of `f` on a fresh instance *constructed* with
       `f = value` (others `i.<name>`), no faults; `none` if the name is not a field or construction raised -/
   ctor : Option Val
   deriving DecidableEq, Repr, FromJson, ToJson, Inhabited
@@ -473,20 +478,30 @@ def presetStore (rt : CState) : Store := rt.attrs.foldl (fun st f => st.set f.na
 /-- the generated `__init__` stores `converter(argument)` per field.  It bypasses the class's own hooks
     (`_setattr`, see C02_no_hooks) — but a class that unknowingly inherits a hook table (K6) uses plain
     assignment, which then runs the inherited hooks. -/
+def dfltVal (f : Field) : Val := "dflt." ++ f.tag
+
+/-- the raw value the initializer has for a field: the argument for `init=True` fields, the declared default for
+    `init=False` fields that have one, nothing (no statement is generated) otherwise -/
+def ctorInput (arg : Field → Val) (f : Field) : Option Val :=
+  if f.init then some (arg f) else if f.dflt then some (dfltVal f) else none
+
 def construct (rt : CState) (rv : Bool) (arg : Field → Val) : Option Store :=
   rt.attrs.foldl (fun acc f =>
     match acc with
     | none => none
     | some st =>
-      let v := Init.convApply f.toInit (arg f)
-      if rt.inheritsHooks then
-        match assign rt rv none st f.name v with
-        | (st', { exc := none, .. }) => some st'
-        | _ => none
-      else some (st.set f.name v)) (some [])
+      match ctorInput arg f with
+      | none => some st
+      | some raw =>
+        let v := Init.convApply f.toInit raw
+        if rt.inheritsHooks then
+          match assign rt rv none st f.name v with
+          | (st', { exc := none, .. }) => some st'
+          | _ => none
+        else some (st.set f.name v)) (some [])
 
 def ctorVal (rt : CState) (rv : Bool) (a : Assign) : Option Val :=
-  if rt.attrs.any (·.name == a.name) then
+  if rt.attrs.any (fun f => f.name == a.name && f.init) then
     match construct rt rv (fun f => if f.name == a.name then a.value else initVal f.name) with
     | some st => st.get a.name
     | none => none
